@@ -210,3 +210,40 @@ Section Base58Addr.
     - lia.
   Qed.
 End Base58Addr.
+
+(* ---------------------------------------------------------------------------------------------- *)
+(* other networks: a segwit address is never decoded as a witness destination on a chain with another HRP *)
+Definition is_witness_dest (d : dest) : bool :=
+  match d with DWSH _ | DWPKH _ | DTaproot _ | DAnchor | DWitUnknown _ _ => true | _ => false end.
+
+Theorem segwit_foreign_hrp_rejected : forall (hash256 : list N -> list N) limit kpA kpB enc ver prog s,
+  hrp_ok (kp_hrp kpA) -> Bech32Convert.bytes_ok prog -> ver < 32 ->
+  (length (kp_hrp kpA) + 1 + (1 + (8 * length prog + 4) / 5) + 6 <= limit)%nat ->
+  segwit_encode kpA enc ver prog = AddrStr s -> kp_hrp kpB <> kp_hrp kpA ->
+  is_witness_dest (fst (decode_destination hash256 limit kpB s)) = false.
+Proof.
+  intros hash256 limit kpA kpB enc ver prog s Hhrp Hp Hv Hlen Henc Hne. unfold segwit_encode in Henc.
+  destruct (convert_8_5_total prog Hp) as (d & Ed & Hd & Ld). rewrite Ed in Henc.
+  destruct Hhrp as [Hnn Hfine].
+  assert (Hdata : syms_ok (ver :: d)) by (constructor; [exact Hv|exact Hd]).
+  rewrite encode_ok in Henc by assumption. cbn [of_b32] in Henc.
+  assert (Es : s = kp_hrp kpA ++ SEPARATOR :: map char_of ((ver :: d) ++ create_checksum enc (kp_hrp kpA) (ver :: d))) by congruence.
+  clear Henc.
+  assert (Hdec : decode limit s = DecOk enc (kp_hrp kpA) (ver :: d)).
+  { apply (decode_encode limit enc (kp_hrp kpA) (ver :: d) s); auto.
+    - split; assumption.
+    - cbn [length]. rewrite Ld. lia.
+    - rewrite Es. apply encode_ok; assumption. }
+  unfold decode_destination. cbv zeta.
+  destruct (bytes_eqb (map lower_case (firstn (length (kp_hrp kpB)) s)) (kp_hrp kpB)).
+  - rewrite Hdec.
+    assert (Hb : bytes_eqb (kp_hrp kpA) (kp_hrp kpB) = false).
+    { unfold bytes_eqb. destruct (list_eq_dec N.eq_dec (kp_hrp kpA) (kp_hrp kpB)) as [E|]; [symmetry in E; contradiction|reflexivity]. }
+    rewrite Hb. reflexivity.
+  - destruct (decode_base58check hash256 s 21) as [data| |].
+    + destruct ((length data =? 20 + length (kp_pubkey kpB))%nat && has_prefix (kp_pubkey kpB) data); [reflexivity|].
+      destruct ((length data =? 20 + length (kp_script kpB))%nat && has_prefix (kp_script kpB) data); [reflexivity|].
+      destruct (_ || _); reflexivity.
+    + destruct (decode_base58 s 100); reflexivity.
+    + reflexivity.
+Qed.
